@@ -80,7 +80,12 @@ def _gjk(collider1, collider2, simplex, max_iterations):
             return True, simplex
         elif gjk_state == GjkState.NO_CONTACT:
             return False, simplex
-        elif abs(np.dot(search_direction, search_direction)) < EPSILON:
+        elif not np.dot(search_direction, search_direction) > 0.0:
+            # Only a direction that is exactly zero (or not finite) is
+            # unusable. The triple products of the simplex cases are not
+            # normalised: their length is |AB|^2 times the distance of the
+            # origin to the edge and is tiny for small shapes long before
+            # the origin lies on the simplex.
             return False, simplex
 
     return False, simplex
